@@ -958,6 +958,14 @@ def signature(seq: list[list], d: Divergence) -> str:
     """stable name of the class of a MINIMAL diverging sequence: its last operation (ids abstracted to known/ghost,
     values dropped), the SET of other operation kinds it needs (registrations and clock moves are filler), the
     observation that differs and the error classes of the two answers"""
+    # ONE root cause, many shapes: a raw `release_waiters` of an invocation that is not final (the lifecycle never does
+    # that) leaves the two wait graphs different - memory forgets the invocation's own outgoing waits, SQLite keeps them
+    # (Props/C09.mem_sql_diverge_without_premise).  Whatever operation later makes the difference visible in the blocking
+    # query, it is that listed finding.
+    if d.kind == "backends" and d.where.startswith("q:blocking") and out_class(d.mem) == "val" and out_class(d.sql) == "val":
+        for j, op in enumerate(seq):
+            if op[0] == "release" and not any(o[0] == "set" and o[1] == op[1] and o[2] in FINALS for o in seq[:j]):
+                return "backends-differ:wait(>id) after {release,wait}=>q:blocking[mem=val|sqlite=val]"
     last = "-"
     if seq:
         a = arg_class(seq[-1], count_labels_before(seq, len(seq) - 1), d.known)
